@@ -151,7 +151,7 @@ Proof.
     assert (Hkv : kval (i_st i) k v0) by (exists e; split; [apply F1; auto|exact Hv2]).
     unfold tlos_done in H. destruct (f_mode f) eqn:Hm.
     + unfold los_return in H. destruct (post_label p) eqn:Hp; injection H as <- <-; same_state.
-      * destruct p; cbn in Hp; simplify_eq; fi_simpl Hcall. Show. fi_easy; intros _; exact Hkv.
+      * destruct p; cbn in Hp; simplify_eq. all: unfold io_out, res_val, FI, LH, los_known, in_cs, cs_class; cbn. all: rewrite Hcall. Show. fi_easy; intros _; exact Hkv.
       * exact Hkv.
     + injection H as <- <-. same_state. fi_simpl Hcall. fi_easy. intros _; exact Hkv.
     + assert (Hin : in_cs f = true) by (unfold in_cs, cs_class; rewrite Hl, Hm; reflexivity).
@@ -173,7 +173,7 @@ Proof.
     assert (Hkv : kval (i_st i) k v0) by (exists e; split; [apply F1; auto|exact Hv2]).
     unfold tlos_done in H. destruct (f_mode f) eqn:Hm.
     + unfold los_return in H. destruct (post_label p) eqn:Hp; injection H as <- <-; same_state.
-      * destruct p; cbn in Hp; simplify_eq; fi_simpl Hcall. Show. fi_easy; intros _; exact Hkv.
+      * destruct p; cbn in Hp; simplify_eq. all: unfold io_out, res_val, FI, LH, los_known, in_cs, cs_class; cbn. all: rewrite Hcall. Show. fi_easy; intros _; exact Hkv.
       * exact Hkv.
     + injection H as <- <-. same_state. fi_simpl Hcall. fi_easy. intros _; exact Hkv.
     + assert (Hin : in_cs f = true) by (unfold in_cs, cs_class; rewrite Hl, Hm; reflexivity).
